@@ -635,6 +635,12 @@ func (g *G) genInt(t *Type, d int) expr {
 		return expr{tf("(%s %s %s)", a.E, op, c), false}
 	case 6:
 		a := g.gen(t, d-1)
+		if a.Const && g.chance(1, 3, "constCompl") {
+			// complement of a typed constant: folded by the type checker at the type's width
+			// (always representable, unlike negation of an unsigned constant)
+			g.feat("const-complement")
+			return expr{tf("(^%s)", g.typedLit(t)), true}
+		}
 		if a.Const {
 			a = g.nonConst(t)
 		}
